@@ -188,6 +188,30 @@ UNITS.append(dict(name="c09_plannerdata_extractStateStorage", template="C09/extr
                   sources=[dict(name="extractStateStorage", file=PDC, sig=r"ompl::base::StateStoragePtr ompl::base::PlannerData::extractStateStorage\(\) const", rules=XS_RULES, loops={"allow_uncontracted": True})],
                   canaries=[dict(name="raw_vertex_indices_in_metadata", where="body:extractStateStorage", rx=r"md\[k\] = indexMap\[edgeList\[k\]\];", repl="md[k] = edgeList[k];")]))
 
+STF = "src/ompl/base/src/StateStorage.cpp"
+ST_RULES = [
+    (r"OMPL_DEBUG\([^;]*\);", "", 0), (r"\bclear\(\);", "SS_CLEAR();", 0), (r"!in\.good\(\) \|\| in\.eof\(\)", "!stream_good || stream_eof", 0), (r"!out\.good\(\)", "!stream_good", 0),
+    (r"\btry\s*\{", "{", 0), (r"catch \(boost::archive::archive_exception &ae\)\s*\{", "if (0) { CATCH: ;", 0), (r"boost::archive::binary_[io]archive [io]a\((?:in|out)\);", "", 0),
+    (r"ia >> h;", "if (!AR_GET_H(&h)) goto CATCH;", 0), (r"oa << h;", "AR_PUT_H(&h);", 0),
+    (r"std::vector<int> sig;\s*space_->computeSignature\(sig\);", "int sig = SPACE_SIG;", 0), (r"space_->computeSignature\(h\.signature\);", "h.signature = SPACE_SIG;", 0),
+    (r"loadStates\(h, ia\);", "ss_loadStates(&h); if (EXC_) goto CATCH;", 0), (r"loadMetadata\(h, ia\);", "meta_loaded++;", 0), (r"storeStates\(h, oa\);", "ss_storeStates();", 0), (r"storeMetadata\(h, oa\);", "meta_stored++;", 0),
+    (r"states_\.size\(\)", "states__size", 0),
+    (r"unsigned int l = space_->getSerializationLength\(\);", "", 0), (r"auto \*buffer = new char\[l\];", "buffer_live = true;", 0), (r"delete\[\] buffer;", "buffer_live = false;", 0),
+    (r"State \*s = space_->allocState\(\);", "int s = ALLOC_STATE();", 0), (r"h\.state_count", "h_p->state_count", 0), (r"std::size_t", "size_t", 0),
+    (r"ia >> boost::serialization::make_binary_object\(buffer, l\);", "if (!AR_GET_REC(&buf_)) { EXC_ = 1; return; }", 0), (r"space_->deserialize\(s, buffer\);", "scratch_content = buf_;", 0), (r"addState\(s\);", "ADD_STATE(scratch_content);", 0),
+    (r"space_->freeState\(s\);", "FREE_STATE(s);", 0),
+    (r"for \(auto &state : states_\)\s*\{", "for (size_t k_ = 0; k_ < states__size; ++k_) { int state = states_[k_];", 0), (r"space_->serialize\(buffer, state\);", "buf_ = state;", 0),
+    (r"oa << boost::serialization::make_binary_object\(buffer, l\);", "AR_PUT_REC(buf_);", 0),
+]
+ST_SRC = [dict(name="storeStates", file=STF, sig=r"void ompl::base::StateStorage::storeStates\(const Header & /\*h\*/, boost::archive::binary_oarchive &oa\)|void ompl::base::StateStorage::storeStates\(const Header &\s*, boost::archive::binary_oarchive &oa\)", rules=ST_RULES, loops={"allow_uncontracted": True}),
+          dict(name="loadStates", file=STF, sig=r"void ompl::base::StateStorage::loadStates\(const Header &h, boost::archive::binary_iarchive &ia\)", rules=[(r"\bh\.state_count", "h_p->state_count", 0)] + ST_RULES, loops={"allow_uncontracted": True}),
+          dict(name="store", file=STF, sig=r"void ompl::base::StateStorage::store\(std::ostream &out\)", rules=[r for r in ST_RULES if "h_p->state_count" not in r[1]], loops={}),
+          dict(name="load", file=STF, sig=r"void ompl::base::StateStorage::load\(std::istream &in\)", rules=[r for r in ST_RULES if "h_p->state_count" not in r[1]], loops={})]
+for _h, _can in (("roundtrip", [dict(name="count_of_the_wrong_container", where="body:store", rx=r"h\.state_count = states__size;", repl="h.state_count = states__size + 1;")]),
+                 ("reject", [dict(name="signature_not_compared", where="body:load", rx=r"h\.signature != sig", repl="0")])):
+    UNITS.append(dict(name="c09_statestorage_" + _h, template="C09/state_storage.c", mode="plain", entry="h_ss_" + _h, sources=ST_SRC, flags=D.PFLAGS, unwind=6, level="bounded", bound="sets of <= 3 states", backend="minisat", timeout=300,
+                      functions=["StateStorage::store(ostream)", "StateStorage::load(istream)", "StateStorage::storeStates", "StateStorage::loadStates"], canaries=_can))
+
 UNITS.append(D.wrapper_unit("c09_wrapper_forwarders"))
 ASSUMPTIONS = ["compound: component (de)serializers are addressed by index and touch exactly len_i bytes at the address they are given (leaf contract); <= 64 components, each <= 4096 bytes",
                "std::sort / std::binary_search / std::map::find are modelled by an insertion sort, a real binary search and the identity map (trusted helpers)",
